@@ -61,6 +61,176 @@ def is_continue_if(n):
                                                    ast.Continue)
 
 
+
+# ---------------------------------------------------------------- normal forms
+class _Rename(ast.NodeTransformer):
+    def __init__(self, mapping):
+        self.mapping = mapping
+
+    def visit_Name(self, n):
+        return ast.copy_location(
+            ast.Name(id=self.mapping.get(n.id, n.id), ctx=n.ctx), n)
+
+
+def ren(node, mapping):
+    """ source text of node with local names renamed """
+    import copy
+    return U(_Rename(mapping).visit(copy.deepcopy(node)))
+
+
+_FLIP = {ast.Is: ast.IsNot, ast.IsNot: ast.Is, ast.Eq: ast.NotEq,
+         ast.NotEq: ast.Eq, ast.In: ast.NotIn, ast.NotIn: ast.In}
+
+
+def negate(t):
+    """ the negation of a test, with `not` pushed into a single comparison """
+    if isinstance(t, ast.UnaryOp) and isinstance(t.op, ast.Not):
+        return t.operand
+    if isinstance(t, ast.Compare) and len(t.ops) == 1 \
+            and type(t.ops[0]) in _FLIP:
+        return ast.Compare(left=t.left, ops=[_FLIP[type(t.ops[0])]()],
+                           comparators=t.comparators)
+    if isinstance(t, ast.BoolOp):          # De Morgan
+        return ast.BoolOp(op=ast.Or() if isinstance(t.op, ast.And)
+                          else ast.And(), values=[negate(v) for v in t.values])
+    return ast.UnaryOp(op=ast.Not(), operand=t)
+
+
+def inline_temps(stmts):
+    """ `t = E ; ... t ...` with t a local assigned once in this block: the
+    last statement with every such temporary replaced by its expression """
+    import copy
+    env = {}
+
+    class Sub(ast.NodeTransformer):
+        def visit_Name(self, n):
+            if isinstance(n.ctx, ast.Load) and n.id in env:
+                return copy.deepcopy(env[n.id])
+            return n
+
+    stmts = strip_log(stmts)
+    for st in stmts[:-1]:
+        need(isinstance(st, ast.Assign) and len(st.targets) == 1
+             and isinstance(st.targets[0], ast.Name)
+             and st.targets[0].id not in env,
+             "a statement that is not a single-assignment temporary", st)
+        env[st.targets[0].id] = Sub().visit(copy.deepcopy(st.value))
+    need(stmts, "empty block")
+    last = copy.deepcopy(stmts[-1])
+    return ast.fix_missing_locations(Sub().visit(last))
+
+
+def tail_if(body):
+    """ `if T: return A` + `return B`   ==   `if T: return A else: return B`;
+    returns (T, A, B) """
+    body = strip_log(body)
+    if len(body) == 1 and isinstance(body[0], ast.If) \
+            and len(strip_log(body[0].body)) == 1 \
+            and len(strip_log(body[0].orelse)) == 1:
+        a, b = strip_log(body[0].body)[0], strip_log(body[0].orelse)[0]
+    else:
+        need(len(body) == 2 and isinstance(body[0], ast.If)
+             and not body[0].orelse
+             and len(strip_log(body[0].body)) == 1, "if-return / return",
+             body[0] if body else None)
+        a, b = strip_log(body[0].body)[0], body[1]
+    need(isinstance(a, ast.Return) and isinstance(b, ast.Return),
+         "both branches return", body[0])
+    return body[0].test, a.value, b.value
+
+
+def canon(t):
+    """ `not (a != b)` -> `a == b` etc. """
+    if isinstance(t, ast.UnaryOp) and isinstance(t.op, ast.Not):
+        inner = canon(t.operand)
+        n = negate(inner)
+        return n
+    return t
+
+
+def loop_nf(stmts, fname):
+    """ Normal form of an accumulation written as a loop nest or as a
+    comprehension:
+        acc = [] ; for a in X: for r in Y: [if C: continue] acc.append(E) ;
+        return acc                      ==  return [E for a in X for r in Y
+                                                    if not C]
+        acc = 0 ; for a in X: acc += E ; return acc  ==  return sum(E for ..)
+    Returns (kind, [iter texts], condition text or None, element text) with
+    the loop variables renamed g0, g1, ... (so renamed locals do not
+    matter); kind is 'list' or 'sum'. """
+    stmts = strip_log(stmts)
+    gens, cond, elt, kind = [], None, None, None
+    if len(stmts) == 1 and isinstance(stmts[0], ast.Return):
+        v = stmts[0].value
+        if isinstance(v, ast.Call) and U(v.func) == 'sum' \
+                and len(v.args) == 1 and not v.keywords:
+            kind, v = 'sum', v.args[0]
+        else:
+            kind = 'list'
+        need(isinstance(v, (ast.ListComp, ast.GeneratorExp))
+             and (kind == 'sum' or isinstance(v, ast.ListComp)),
+             f"{fname}: not a comprehension", stmts[0])
+        conds = []
+        for g in v.generators:
+            need(not g.is_async, f"{fname}: async generator", stmts[0])
+            gens.append((g.target, g.iter))
+            conds += g.ifs
+        need(len(conds) <= 1 and (not conds or v.generators[-1].ifs),
+             f"{fname}: more than one filter", stmts[0])
+        cond = conds[0] if conds else None
+        elt = v.elt
+    else:
+        need(len(stmts) == 3 and isinstance(stmts[0], ast.Assign)
+             and isinstance(stmts[0].targets[0], ast.Name)
+             and isinstance(stmts[1], ast.For)
+             and isinstance(stmts[2], ast.Return)
+             and U(stmts[2].value) == stmts[0].targets[0].id,
+             f"{fname}: not `acc = ..; for ..; return acc`",
+             stmts[0] if stmts else None)
+        acc = stmts[0].targets[0].id
+        init = U(stmts[0].value)
+        need(init in ('[]', '0'), f"{fname}: accumulator starts at {init}",
+             stmts[0])
+        kind = 'list' if init == '[]' else 'sum'
+        loop = stmts[1]
+        while True:
+            need(not loop.orelse, f"{fname}: for/else", loop)
+            gens.append((loop.target, loop.iter))
+            body = strip_log(loop.body)
+            if len(body) == 1 and isinstance(body[0], ast.For):
+                loop = body[0]
+                continue
+            break
+        if len(body) == 2 and is_continue_if(body[0]):
+            cond = negate(body[0].test)
+            body = body[1:]
+        elif len(body) == 1 and isinstance(body[0], ast.If) \
+                and not body[0].orelse:
+            cond = body[0].test
+            body = strip_log(body[0].body)
+        need(len(body) == 1, f"{fname}: loop body", loop)
+        st = body[0]
+        if kind == 'list':
+            need(isinstance(st, ast.Expr) and isinstance(st.value, ast.Call)
+                 and U(st.value.func) == acc + '.append'
+                 and len(st.value.args) == 1, f"{fname}: {acc}.append(..)",
+                 st)
+            elt = st.value.args[0]
+        else:
+            need(isinstance(st, ast.AugAssign) and isinstance(st.op, ast.Add)
+                 and U(st.target) == acc, f"{fname}: {acc} += ..", st)
+            elt = st.value
+    mapping = {}
+    iters = []
+    for i, (tgt, it) in enumerate(gens):
+        iters.append(ren(it, mapping))
+        need(isinstance(tgt, ast.Name), f"{fname}: loop target", tgt)
+        mapping[tgt.id] = f"g{i}"
+    return (kind, iters,
+            None if cond is None else ren(canon(cond), mapping),
+            ren(elt, mapping))
+
+
 class Out:
     def __init__(self):
         self.defs = []
@@ -77,32 +247,50 @@ class Out:
             self.failed.append((name, f"{type(exc).__name__}: {exc}"))
 
 
-def path_selector(f, name):
-    """ `if path: paths = [path] else: paths = list(<dict>.keys())` """
-    ifs = [n for n in real_body(f) if isinstance(n, ast.If)]
-    n = one(ifs, f"{f.name}: top-level if", f)
+ALL_KEYS = ('list(self._results_by_path.keys())',
+            'list(self._results_by_path)', 'self.files')
+
+
+def path_selector(f, name, cls=None):
+    """ `if path: paths = [path] else: paths = <all keys>`, inline or in a
+    private helper `paths = self._helper(path)` whose body is
+    `if path: return [path]` / `return <all keys>`; returns the definition
+    text, info and the statements after it """
+    body = real_body(f)
+    first = body[0] if body else None
+    if isinstance(first, ast.Assign) and U(first.targets[0]) == 'paths' \
+            and isinstance(first.value, ast.Call) and cls is not None \
+            and U(first.value.func).startswith('self.') \
+            and [U(a) for a in first.value.args] + \
+                [U(k.value) for k in first.value.keywords] == ['path']:
+        hname = U(first.value.func)[5:]
+        helper = one([n for n in cls.body if isinstance(n, ast.FunctionDef)
+                      and n.name == hname], f"helper {hname}", first)
+        params = [a.arg for a in helper.args.args]
+        need(len(params) == 2, f"{hname}(self, path)", helper)
+        test, a, b = tail_if(real_body(helper))
+        mp = {params[1]: 'path'}
+        need(ren(test, mp) == 'path' and ren(a, mp) == '[path]'
+             and ren(b, mp) in ALL_KEYS,
+             f"{f.name}: helper {hname} is not `[path] if path else all "
+             "keys`", helper)
+        return (f"Definition {name} (p : Z) : bool := truthy p.",
+                {'test': 'path', 'helper': hname}, body[1:])
+    ifs = [i for i, n in enumerate(body) if isinstance(n, ast.If)]
+    need(len(ifs) >= 1, f"{f.name}: path test", f)
+    n = body[ifs[0]]
     need(isinstance(n.test, ast.Name) and n.test.id == 'path',
          f"{f.name}: the path test is not the truthiness of `path`: "
          f"{U(n.test)}", n)
     need(len(n.body) == 1 and U(n.body[0]) == 'paths = [path]',
          f"{f.name}: restricted branch is not `paths = [path]`", n)
-    need(len(n.orelse) == 1 and
-         U(n.orelse[0]) == 'paths = list(self._results_by_path.keys())',
+    need(len(n.orelse) == 1 and U(n.orelse[0]) in
+         tuple('paths = ' + k for k in ALL_KEYS),
          f"{f.name}: unrestricted branch is not all keys", n)
+    need(not strip_log(body[:ifs[0]]), f"{f.name}: statements before the "
+         "path test", f)
     return (f"Definition {name} (p : Z) : bool := truthy p.",
-            {'test': U(n.test)})
-
-
-def nested_filter(f, outer_iter, inner_iter):
-    """ the `for _path in paths: for result in self.find_by_path(_path):`
-    nest; returns the inner body """
-    fors = [n for n in real_body(f) if isinstance(n, ast.For)]
-    o = one(fors, f"{f.name}: outer loop", f)
-    need(U(o.iter) == outer_iter, f"{f.name}: outer loop over {U(o.iter)}", o)
-    inner = one([n for n in strip_log(o.body)], f"{f.name}: outer body", o)
-    need(isinstance(inner, ast.For) and U(inner.iter) == inner_iter,
-         f"{f.name}: inner loop is not over {inner_iter}", inner)
-    return strip_log(inner.body), inner
+            {'test': U(n.test)}, body[ifs[0] + 1:])
 
 
 def generate(repo):
@@ -114,21 +302,38 @@ def generate(repo):
     # ------------------------------------------------------------- C09
     def fd_cap():
         f = find_def(tree, 'SearchCatalog._filtered_dir')
-        lim = find_assign(f.body, 'limit')
-        t_lim, ty = Tr(names={'max_logrotate_depth': 'depth'}).expr(lim)
-        need(ty == 'Z', "limit is not an integer expression", lim)
+        # `limit = <expr>` is a temporary: inline it when present
+        lims = [n for n in f.body if isinstance(n, ast.Assign)
+                and U(n.targets[0]) == 'limit']
+        need(len(lims) <= 1, "limit assigned more than once", f)
+        names = {'max_logrotate_depth': 'depth'}
+        subst = {}
+        if lims:
+            t_lim, ty = Tr(names=names).expr(lims[0].value)
+            need(ty == 'Z', "limit is not an integer expression", lims[0])
+            subst = {'limit': (t_lim, 'Z', ['depth'])}
         loops = [n for n in f.body if isinstance(n, ast.For)
                  and U(n.iter).endswith('.values()')]
         lp = one(loops, "_filtered_dir: loop over the groups", f)
         need(isinstance(lp.target, ast.Name), "group loop target", lp)
         g = lp.target.id
         body = strip_log(lp.body)
-        need(len(body) == 2, "_filtered_dir: group loop body changed", lp)
-        cap = body[0]
-        need(isinstance(cap, ast.Assign) and U(cap.targets[0]) == 'capped'
-             and isinstance(cap.value, ast.Subscript), "capped = ...[...]",
-             cap)
-        srt, sl = cap.value.value, cap.value.slice
+        # `capped = sorted(..)[..]; new_contents += capped`, with or without
+        # temporaries, or new_contents.extend(..)
+        tail = inline_temps(body)
+        val = tail.value if isinstance(tail, ast.AugAssign) else (
+            tail.value.args[0]
+            if isinstance(tail, ast.Expr)
+            and isinstance(tail.value, ast.Call)
+            and U(tail.value.func) == 'new_contents.extend'
+            and len(tail.value.args) == 1 else None)
+        need(val is not None and isinstance(val, ast.Subscript)
+             and ((isinstance(tail, ast.AugAssign)
+                   and isinstance(tail.op, ast.Add)
+                   and U(tail.target) == 'new_contents')
+                  or isinstance(tail, ast.Expr)),
+             "the capped copies are not appended to new_contents", lp)
+        srt, sl = val.value, val.slice
         need(isinstance(srt, ast.Call) and U(srt.func) == 'sorted'
              and len(srt.args) == 1 and U(srt.args[0]) == g
              and [(k.arg, U(k.value)) for k in srt.keywords]
@@ -136,16 +341,14 @@ def generate(repo):
              "sorted(<group>, key=logrotate_log_sort)", srt)
         need(isinstance(sl, ast.Slice) and sl.lower is None
              and sl.step is None and sl.upper is not None,
-             "the cap is not a plain [:upper] slice", cap)
-        t_up, ty = Tr(names={'limit': 'limit'}).expr(sl.upper)
+             "the cap is not a plain [:upper] slice", val)
+        t_up, ty = Tr(names=names, subst=subst).expr(sl.upper)
         need(ty == 'Z', "slice bound is not an integer expression", sl)
-        need(U(body[1]) == 'new_contents += capped',
-             "capped copies are not appended to the result", body[1])
-        return (f"Definition x_fd_limit (depth : Z) : Z := {t_lim}.\n"
-                "Definition x_fd_cap {A} (key : A -> Z) (limit : Z) "
+        return ("Definition x_fd_cap {A} (key : A -> Z) (depth : Z) "
                 f"(l : list A) : list A :=\n  py_take ({t_up}) "
                 "(sort_by key l).",
-                {'limit': U(lim), 'slice_upper': U(sl.upper)})
+                {'slice_upper': U(sl.upper),
+                 'limit': U(lims[0].value) if lims else None})
     out.item('x_fd_cap', fd_cap)
 
     def fd_loop():
@@ -158,17 +361,19 @@ def generate(repo):
         need(is_continue_if(skip), "isfile skip", skip)
         t_skip = Tr(calls={'os.path.isfile(path)': 'isfile'},
                     bools=['isfile']).cond(skip.test)
-        need(isinstance(assign, ast.Assign) and U(assign.targets[0]) == 'ret'
+        need(isinstance(assign, ast.Assign)
+             and isinstance(assign.targets[0], ast.Name)
              and isinstance(assign.value, ast.Call)
              and U(assign.value.func).startswith('re.compile(')
              and U(assign.value.func).endswith('.match')
              and [U(a) for a in assign.value.args] == ['path'],
-             "ret = re.compile(..).match(path)", assign)
-        need(isinstance(nomatch, ast.If) and U(nomatch.test) == 'not ret'
+             "<m> = re.compile(..).match(path)", assign)
+        mv = assign.targets[0].id
+        need(isinstance(nomatch, ast.If) and U(nomatch.test) == 'not ' + mv
              and [U(x) for x in strip_log(nomatch.body)]
              == ['new_contents.append(path)', 'continue']
              and not nomatch.orelse, "unmatched path kept as is", nomatch)
-        need(U(pfx) == 'fnamepfix = ret.group(1)', "group(1) prefix", pfx)
+        need(U(pfx) == f'fnamepfix = {mv}.group(1)', "group(1) prefix", pfx)
         need(isinstance(live, ast.If) and isinstance(live.test, ast.Call)
              and U(live.test.func) == 'path.endswith'
              and len(live.test.args) == 1
@@ -205,31 +410,59 @@ def generate(repo):
 
     def source_id():
         f = find_def(tree, 'SearchCatalog.get_source_id')
-        top = one([n for n in real_body(f) if isinstance(n, ast.If)],
-                  "get_source_id: if", f)
-        need(U(top.test) == 'not self._source_ids', "empty-table test", top)
-        first = one(strip_log(top.body), "first id", top)
-        need(isinstance(first, ast.Assign)
-             and U(first.targets[0]) == 'source_id', "source_id = ..", first)
+        body = real_body(f)
+        tab = 'self._source_ids'
+        # (A) if not T: id = 0 / else: <lookup loop>; id = max(T) + 1
+        # (B) <lookup loop>; if T: id = max(T) + 1 / else: id = 0
+        # (the lookup loop over an empty table is a no-op)
+        top = [n for n in body if isinstance(n, (ast.If, ast.For))]
+        need(top and isinstance(top[-1] if isinstance(top[0], ast.For)
+                                else top[0], ast.If), "get_source_id: if", f)
+        if isinstance(top[0], ast.For):
+            need(len(top) == 2, "lookup loop then if", f)
+            loop, branch = top
+            seq_before = []
+        else:
+            need(len(top) == 1, "single top-level if", f)
+            branch = top[0]
+            loop = None
+            seq_before = None
+        test = canon(branch.test)
+        if U(test) == 'not ' + tab:
+            empty, nonempty = branch.body, branch.orelse
+        else:
+            need(U(test) == tab, "empty-table test", branch)
+            empty, nonempty = branch.orelse, branch.body
+        nonempty = strip_log(nonempty)
+        if loop is None:
+            need(len(nonempty) == 2 and isinstance(nonempty[0], ast.For),
+                 "lookup loop + new id", branch)
+            loop, nonempty = nonempty[0], nonempty[1:]
+        del seq_before
+        need(U(loop.iter) == tab + '.items()'
+             and isinstance(loop.target, ast.Tuple)
+             and len(loop.target.elts) == 2, "loop over the table", loop)
+        idv, pv = [U(x) for x in loop.target.elts]
+        lb = strip_log(loop.body)
+        need(len(lb) == 1 and isinstance(lb[0], ast.If) and not lb[0].orelse
+             and U(canon(lb[0].test)) in (f'{pv} == path', f'path == {pv}')
+             and [U(x) for x in strip_log(lb[0].body)] == [f'return {idv}'],
+             "an existing path returns its id", loop)
+        first = one(strip_log(empty), "first id", branch)
+        new = one(nonempty, "new id", branch)
+        for st in (first, new):
+            need(isinstance(st, ast.Assign)
+                 and U(st.targets[0]) == 'source_id', "source_id = ..", st)
         t0, ty = Tr().expr(first.value)
         need(ty == 'Z', "first id not an integer", first)
-        rest = strip_log(top.orelse)
-        need(len(rest) == 2, "lookup loop + new id", top)
-        loop, new = rest
-        need(isinstance(loop, ast.For)
-             and U(loop.iter) == 'self._source_ids.items()'
-             and U(loop.target) == '(source_id, _path)'
-             and [U(x) for x in strip_log(loop.body)]
-             == ['if _path == path:\n    return source_id'],
-             "existing path returns its id", loop)
-        need(isinstance(new, ast.Assign) and U(new.targets[0]) == 'source_id',
-             "new id assignment", new)
-        t1, ty = Tr(subst={'max(list(self._source_ids))':
-                           ('m', 'Z', ['m'])}).expr(new.value)
+        mx = ('m', 'Z', ['m'])
+        t1, ty = Tr(subst={f'max(list({tab}))': mx, f'max({tab})': mx,
+                           f'max({tab}.keys())': mx,
+                           f'max(list({tab}.keys()))': mx}).expr(new.value)
         need(ty == 'Z', "new id not an integer", new)
-        tail = [U(x) for x in real_body(f)[-2:]]
-        need(tail == ['self._source_ids[source_id] = path',
-                      'return source_id'], "table update / return", f)
+        tail = [U(x) for x in body[-2:]]
+        need(tail == [f'{tab}[source_id] = path', 'return source_id'],
+             "table update / return", f)
         return (f"Definition x_first_source_id : Z := {t0}.\n"
                 f"Definition x_next_source_id (m : Z) : Z := {t1}.",
                 {'first': U(first.value), 'next': U(new.value)})
@@ -259,9 +492,9 @@ def generate(repo):
         need(isinstance(k, int), "group index", last)
         lp = one([n for n in body if isinstance(n, ast.For)], "filter loop",
                  f)
-        need(U(lp.iter) == 'filters'
-             and [U(x) for x in strip_log(lp.body)]
-             == ['ret = re.compile(f).match(fname)', 'if ret:\n    break'],
+        need(U(lp.iter) == 'filters' and isinstance(lp.target, ast.Name)
+             and [ren(x, {lp.target.id: 'g0'}) for x in strip_log(lp.body)]
+             == ['ret = re.compile(g0).match(fname)', 'if ret:\n    break'],
              "first matching filter wins (re.match)", lp)
         return (f"Definition x_sort_live_key : Z := {t0}.\n"
                 f"Definition x_sort_group_index : Z := {k}.\n"
@@ -272,20 +505,42 @@ def generate(repo):
     def expand():
         f = find_def(tree, 'SearchCatalog._expand_path')
         body = real_body(f)
-        need(len(body) == 3, "_expand_path: three cases", f)
-        a, b, c = body
+        a = body[0]
         need(isinstance(a, ast.If) and U(a.test) == 'os.path.isfile(path)'
              and [U(x) for x in a.body] == ['return [path]'] and not a.orelse,
              "a file denotes itself", a)
-        need(isinstance(b, ast.If) and U(b.test) == 'os.path.isdir(path)'
-             and len(b.body) == 1 and isinstance(b.body[0], ast.Return)
-             and U(b.body[0].value).replace(' ', '').replace('\n', '')
-             == ('self._filtered_dir([os.path.join(path,f)forfin'
-                 'os.listdir(path)],self.max_logrotate_depth)'),
-             "directory: joined listing through _filtered_dir", b)
-        need(isinstance(c, ast.Return) and U(c.value) ==
-             'self._filtered_dir(glob.glob(path), self.max_logrotate_depth)',
-             "glob through _filtered_dir", c)
+
+        def flat(x):
+            return U(x).replace(' ', '').replace('\n', '')
+
+        join = '[os.path.join(path,f)forfinos.listdir(path)]'
+        call = 'self._filtered_dir({},self.max_logrotate_depth)'
+        rest = body[1:]
+        if len(rest) == 2 and isinstance(rest[1], ast.Return):
+            b, c = rest
+            need(isinstance(b, ast.If) and U(b.test) == 'os.path.isdir(path)',
+                 "directory test", b)
+            if len(b.body) == 1 and isinstance(b.body[0], ast.Return) \
+                    and not b.orelse:
+                # return f(dir listing) ... return f(glob)
+                need(flat(b.body[0].value) == call.format(join)
+                     and flat(c.value) == call.format('glob.glob(path)'),
+                     "directory: joined listing / glob, through "
+                     "_filtered_dir", b)
+            else:
+                # X = dir listing / else: X = glob ... return f(X)
+                need(len(b.body) == 1 and len(b.orelse) == 1
+                     and isinstance(b.body[0], ast.Assign)
+                     and isinstance(b.orelse[0], ast.Assign)
+                     and U(b.body[0].targets[0]) == U(b.orelse[0].targets[0])
+                     and flat(b.body[0].value) == join
+                     and flat(b.orelse[0].value) == 'glob.glob(path)'
+                     and flat(c.value)
+                     == call.format(U(b.body[0].targets[0])),
+                     "directory: joined listing / glob, through "
+                     "_filtered_dir", b)
+        else:
+            need(False, "_expand_path: unrecognised layout", f)
         return ("Definition x_expand_file_is_itself : bool := true.\n"
                 "Definition x_expand_dir_joins : bool := true.\n"
                 "Definition x_expand_glob_filtered : bool := true.", {})
@@ -294,14 +549,13 @@ def generate(repo):
     # ------------------------------------------------------------- C14
     def fbt():
         f = find_def(tree, 'SearchResultsCollection.find_by_tag')
-        sel, info = path_selector(f, 'x_fbt_restrict')
-        body, inner = nested_filter(f, 'paths', 'self.find_by_path(_path)')
-        need(len(body) == 2 and is_continue_if(body[0])
-             and U(body[0].test) == 'result.tag != tag'
-             and U(body[1]) == 'results.append(result)',
-             "find_by_tag: keep iff not (result.tag != tag)", inner)
-        need(U(real_body(f)[-1]) == 'return results', "return results", f)
-        # `if result.tag != tag: continue` = keep iff the tags are equal
+        sel, info, rest = path_selector(
+            f, 'x_fbt_restrict', find_def(tree, 'SearchResultsCollection'))
+        nf = loop_nf(rest, 'find_by_tag')
+        need(nf == ('list', ['paths', 'self.find_by_path(g0)'],
+                    'g1.tag == tag', 'g1'),
+             f"find_by_tag: not `every result of every selected path whose "
+             f"tag equals tag`: {nf}", f)
         return (sel + "\nDefinition x_fbt_keeps (rt t : option Z) : bool := "
                 "oz_eqb rt t.", info)
     out.item('x_find_by_tag', fbt)
@@ -309,13 +563,13 @@ def generate(repo):
     def gasr():
         f = find_def(tree,
                      'SearchResultsCollection._get_all_sequence_results')
-        sel, info = path_selector(f, 'x_seq_restrict')
-        body, inner = nested_filter(f, 'paths', 'self.find_by_path(_path)')
-        need(len(body) == 2 and is_continue_if(body[0])
-             and U(body[0].test) == 'result.sequence_id is None'
-             and U(body[1]) == 'sequences.append(result)',
-             "keep iff sequence_id is not None", inner)
-        need(U(real_body(f)[-1]) == 'return sequences', "return", f)
+        sel, info, rest = path_selector(
+            f, 'x_seq_restrict', find_def(tree, 'SearchResultsCollection'))
+        nf = loop_nf(rest, '_get_all_sequence_results')
+        need(nf == ('list', ['paths', 'self.find_by_path(g0)'],
+                    'g1.sequence_id is not None', 'g1'),
+             "_get_all_sequence_results: not `every result of every "
+             f"selected path with a sequence id`: {nf}", f)
         return (sel + "\nDefinition x_seq_keeps (s : option Z) : bool := "
                 "match s with Some _ => true | None => false end.", info)
     out.item('x_all_sequence_results', gasr)
@@ -357,23 +611,15 @@ def generate(repo):
 
     def length():
         f = find_def(tree, 'SearchResultsCollection.__len__')
-        body = real_body(f)
-        need(len(body) == 3, "__len__ body", f)
-        init, lp, ret = body
-        need(isinstance(init, ast.Assign) and U(init.targets[0]) == '_count',
-             "_count = ..", init)
-        t0, ty = Tr().expr(init.value)
-        need(isinstance(lp, ast.For) and U(lp.iter) == 'self.files'
-             and U(lp.target) == 'f' and len(lp.body) == 1
-             and isinstance(lp.body[0], ast.AugAssign)
-             and isinstance(lp.body[0].op, ast.Add)
-             and U(lp.body[0].target) == '_count', "loop over files", lp)
-        t1, ty = Tr(subst={'len(self.find_by_path(f))': ('n', 'Z', ['n'])}
-                    ).expr(lp.body[0].value)
-        need(ty == 'Z' and U(ret) == 'return _count', "return _count", ret)
-        return (f"Definition x_len_init : Z := {t0}.\n"
-                "Definition x_len_step (count n : Z) : Z := "
-                f"count + {t1}.", {'step': U(lp.body[0].value)})
+        kind, iters, cond, elt = loop_nf(real_body(f), '__len__')
+        need(kind == 'sum' and iters in (['self.files'],
+                                         ['self._results_by_path'])
+             and cond is None and elt == 'len(self.find_by_path(g0))',
+             f"__len__: not the sum of the per-path list lengths: "
+             f"{(kind, iters, cond, elt)}", f)
+        return ("Definition x_len_init : Z := 0.\n"
+                "Definition x_len_step (count n : Z) : Z := count + n.",
+                {'elt': elt})
     out.item('x_len', length)
 
     def add_():
@@ -454,7 +700,17 @@ def generate(repo):
         need(U(first) ==
              "alldefs = {s_def: True for s_def in self.info['searches']}",
              "search_defs: dict keyed by the definition", first)
-        need(U(real_body(sd)[-1]) == 'return alldefs', "return alldefs", sd)
+        last = real_body(sd)[-1]
+        keyed = U(last) == 'return alldefs'
+        if not keyed and isinstance(last, ast.Return) \
+                and isinstance(last.value, ast.DictComp):
+            dc = last.value          # {d: <flag> for d in alldefs}
+            keyed = (len(dc.generators) == 1 and not dc.generators[0].ifs
+                     and U(dc.generators[0].iter) in
+                     ('alldefs', "self.info['searches']")
+                     and U(dc.key) == U(dc.generators[0].target))
+        need(keyed, "search_defs returns a dict keyed by the definitions",
+             last)
         rs = find_def(tt, 'SearchTask._run_search')
         lines = one([n for n in rs.body if isinstance(n, ast.For)
                      and U(n.iter).startswith('enumerate(fd')],
@@ -506,13 +762,11 @@ def generate(repo):
               'return self._sequence_searches[search_id]'],
              "resolve_from_id: simple table first, then sequence table", f)
         g = find_def(tree, 'SearchCatalog.resolve_from_tag')
-        need([U(x) for x in real_body(g)] ==
-             ['searches = []',
-              'for search_id in self._search_tags[tag]:\n'
-              '    searches.append(self.resolve_from_id(search_id))',
-              'return searches'],
-             "resolve_from_tag: every id of _search_tags[tag], in order "
-             "(KeyError for an unknown tag)", g)
+        nf = loop_nf(real_body(g), 'resolve_from_tag')
+        need(nf == ('list', ['self._search_tags[tag]'], None,
+                    'self.resolve_from_id(g0)'),
+             "resolve_from_tag: not `resolve_from_id of every id of "
+             f"_search_tags[tag], in order (KeyError if unknown)`: {nf}", g)
         h = find_def(tree, 'SearchCatalog.source_id_to_path')
         body = real_body(h)
         need(len(body) == 2 and isinstance(body[0], ast.Try)
@@ -586,14 +840,40 @@ def generate(repo):
              ['return list(self._results_by_path.keys())'],
              "files = keys of _results_by_path", files)
         ga = find_def(tree, 'SearchResultsCollection.__getattribute__')
-        need([U(x) for x in real_body(ga)] ==
-             ["if name != 'data':\n"
-              "    return super().__getattribute__(name)",
-              'results = {}',
-              'for path, _results in self._results_by_path.items():\n'
-              '    results[path] = _results',
-              'return results'],
-             "`data` is a fresh dict filled from _results_by_path", ga)
+        gb = real_body(ga)
+        need(U(gb[0]) == "if name != 'data':\n"
+             "    return super().__getattribute__(name)",
+             "__getattribute__: everything but `data` is untouched", ga)
+        rest = [U(x) for x in strip_log(gb[1:])]
+        src = 'self._results_by_path'
+        copies = [
+            [f'return dict({src})'], [f'return {src}.copy()'],
+            [f'return dict({src}.items())'],
+            [f'return {{**{src}}}'],
+        ]
+        ok = rest in copies
+        if not ok and len(gb) == 2 and isinstance(gb[1], ast.Return) \
+                and isinstance(gb[1].value, ast.DictComp):
+            dc = gb[1].value
+            ok = (len(dc.generators) == 1 and not dc.generators[0].ifs
+                  and U(dc.generators[0].iter) == src + '.items()'
+                  and isinstance(dc.generators[0].target, ast.Tuple)
+                  and [U(x) for x in dc.generators[0].target.elts]
+                  == [U(dc.key), U(dc.value)])
+        if not ok and len(gb) == 4 and isinstance(gb[2], ast.For):
+            acc = U(gb[1].targets[0]) if isinstance(gb[1], ast.Assign) \
+                else None
+            lp = gb[2]
+            ok = (acc is not None and U(gb[1].value) == '{}'
+                  and U(lp.iter) == src + '.items()'
+                  and isinstance(lp.target, ast.Tuple)
+                  and len(lp.target.elts) == 2
+                  and [U(x) for x in strip_log(lp.body)] ==
+                  [f'{acc}[{U(lp.target.elts[0])}] = '
+                   f'{U(lp.target.elts[1])}']
+                  and U(gb[3]) == f'return {acc}')
+        need(ok, "`data` is not a fresh shallow copy of _results_by_path: "
+             f"{rest}", ga)
         del cls
         return ("Definition x_collection_init_resets : bool := true.\n"
                 "Definition x_reset_reinitialises_all_state : bool := true.\n"
@@ -619,10 +899,12 @@ def generate(repo):
               'super().__init__(data)'],
              "ResultFieldInfo: a dict keeps its types, a list has none", init)
         et = find_def(tree, 'ResultFieldInfo.ensure_type')
-        need([U(x) for x in real_body(et)] ==
-             ['if name not in self.data or self.data[name] is None:\n'
-              '    return value',
-              'return self.data[name](value)'],
+        test, a, b = tail_if(real_body(et))
+        untyped = 'name not in self.data or self.data[name] is None'
+        if U(canon(test)) != untyped:
+            test, a, b = negate(test), b, a
+        need(U(canon(test)) == untyped and U(a) == 'value'
+             and U(b) == 'self.data[name](value)',
              "ensure_type: cast iff the field declares a type", et)
         itn = find_def(tree, 'ResultFieldInfo.index_to_name')
         body = real_body(itn)
